@@ -642,8 +642,16 @@ func (c *Ctx) rulesLevelImport(prop string, s *Slashing) {
 					continue
 				}
 				n48++
+				placed := ia.X == keyBase && (s2.Block() == hst.Block() || an.Reachable(an.After(s2), hst.(ssa.Instruction)))
+				// the action byte itself may be the helper's parameter: helper(..., action[0], ...)
+				if a := argOf(s2.Val); a != nil && placed {
+					if root, idx, ok := elemLoadAny(a); ok && an.IsConstInt(idx, 0) {
+						st.helperAc = root
+					}
+					continue
+				}
 				root, idx, ok := elemLoadAny(s2.Val)
-				if !ok || !an.IsConstInt(idx, 0) || ia.X != keyBase || !(s2.Block() == hst.Block() || an.Reachable(an.After(s2), hst.(ssa.Instruction))) {
+				if !ok || !an.IsConstInt(idx, 0) || !placed {
 					continue
 				}
 				if a := argOf(root); a != nil {
